@@ -1,4 +1,7 @@
 SPECIFICATION TSpec
-CONSTANT KnownErase = FALSE
+CONSTANTS
+ KnownErase = FALSE
+ KnownGJKR = FALSE
+ KnownWithheld = FALSE
 POSTCONDITION Accepted
 CHECK_DEADLOCK FALSE
